@@ -185,6 +185,67 @@ def explore_cube(case):
     return res
 
 
+def explore_rays(case):
+    """demands next to every outcome change of the compiled allocation along rays through demand space: one target motor force swept
+    from below 0 to above F_max (others fixed), the thrust demand and each moment demand swept through and beyond their ranges, and
+    one moment demand swept through zero on a logarithmic grid while the others are held (a demand that is small RELATIVE to another).
+    A band, dead zone, snap or quantiser that a change introduces between two lattice members shows up as a signature flip, a window in
+    a comparison margin or a new piece of floor / sign, and the members harvested next to it are judged exactly like the lattice."""
+    from .. import harvest
+    ci = case["consts"]
+    res = core.Result()
+    consts = CONSTS[ci]
+    F_max, l, Cm, Ct = consts
+    f = fns()
+    Ff, lf, Cmf = float(F_max), float(l), float(Cm)
+    M_max = lf * 4 * Ff / 2
+
+    def args_of(T, M):
+        return arg_order(f["names_in"], Ff, lf, Cmf, float(Ct), float(T), [float(x) for x in M])
+    rays = []
+    for F0 in ((0.5, 0.5, 0.5, 0.5), (0.25, 0.5, 0.75, 0.5), (0.9, 0.6, 0.3, 0.45)):
+        for i in range(4):
+            def mk(t, F0=F0, i=i):
+                Ft = [x * Ff for x in F0]
+                Ft[i] = t * Ff
+                return G_apply(lf, Cmf, Ft)
+            rays.append(("target_force_%d_from_%s" % (i, F0), mk, [k / 20.0 for k in range(-5, 26)]))
+    logs = [0.0] + [s_ * 10.0 ** e for e in range(-9, 1) for s_ in (1.0, -1.0)]
+    for T0, M0 in ((2.0 * Ff, (0.1 * M_max, -0.05 * M_max, 0.02 * Cmf * Ff)), (1.1 * Ff, (0.2 * lf * Ff, 0.05 * lf * Ff, 0.0)), (3.5 * Ff, (0.0, 0.0, 0.0))):
+        rays.append(("thrust_from_%r" % (M0,), (lambda t, M0=M0: (t * Ff, M0)), [k / 8.0 for k in range(-8, 49)]))
+        for k in range(3):
+            def mk(t, T0=T0, M0=M0, k=k):
+                M = list(M0)
+                M[k] = t * M_max
+                return T0, tuple(M)
+            rays.append(("moment_%d_at_T=%g" % (k, T0), mk, [j / 10.0 for j in range(-15, 16)]))
+            rays.append(("moment_%d_through_zero_at_T=%g" % (k, T0), mk, sorted(logs)))
+    nmem = 0
+    for tag, mk, ts in rays:
+        mem = harvest.ray_members(f["prog"], lambda t: args_of(*mk(t)), ts, per_cell=(12 if case["tier"] == "quick" else 40))
+        # members strictly inside each cell as well (midpoints), so that the ray itself is explored and not only its boundaries
+        mids = [(a + b) / 2 for a, b in zip(ts, ts[1:])][::3]
+        res.count("harvested_members", len(mem))
+        nmem += len(mem)
+        for t in list(mem) + mids:
+            T, M = mk(t)
+            judge(res, consts, Fr(float(T)), [Fr(float(x)) for x in M], case, "ray %s t=%r" % (tag, t))
+            if len(res.fails) > 40:
+                return res
+    res.samples.append(dict(consts=[str(x) for x in consts], rays=len(rays), harvested_members=nmem))
+    return res
+
+
+class _R:
+    chunks = 1
+
+    def cases(self, tier, seed):
+        return [dict(sub="rays", consts=c, tier=tier) for c in range(4)]
+
+    def run(self, case):
+        return explore_rays(case)
+
+
 class _T:
     chunks = 1
 
@@ -211,8 +272,8 @@ def post(total, tier, seed):
     total.counters["cells_entered"] = len(cells)
 
 
-SUBCHECKS = {"targets": _T(), "cube": _C()}
-REPLAY = {"targets": lambda c: explore_targets(c).fails, "cube": lambda c: explore_cube(c).fails}
+SUBCHECKS = {"rays": _R(), "targets": _T(), "cube": _C()}
+REPLAY = {"targets": lambda c: explore_targets(c).fails, "cube": lambda c: explore_cube(c).fails, "rays": lambda c: explore_rays(c).fails}
 
 # keyword / dict calls bind the documented names (see mc/kw.py)
 from .. import kw as _kw  # noqa: E402
